@@ -293,3 +293,76 @@ func eachInstrG(p *Prog, fn *ssa.Function, f func(b *ssa.BasicBlock, in ssa.Inst
 		eachInstr(gf, f)
 	}
 }
+
+// provLeaves follows a value backwards through φs, parameters of inlined
+// activations (to the caller's argument), results of inlined calls and type
+// changes, and returns the values the walk stops at.
+func provLeaves(g *Gate, start AV) []AV {
+	var out []AV
+	seen := map[AV]bool{}
+	var walk func(a AV)
+	walk = func(a AV) {
+		if a.V == nil || a.Act == nil || seen[a] {
+			return
+		}
+		seen[a] = true
+		switch v := a.V.(type) {
+		case *ssa.Phi:
+			for _, e := range v.Edges {
+				walk(AV{a.Act, e})
+			}
+		case *ssa.ChangeType:
+			walk(AV{a.Act, v.X})
+		case *ssa.Parameter:
+			if a.Act.Parent != nil && a.Act.Site != nil {
+				if ci, ok := a.Act.Site.(ssa.CallInstruction); ok {
+					for i, p := range a.Act.Fn.Params {
+						if p == v && i < len(ci.Common().Args) {
+							walk(AV{a.Act.Parent, ci.Common().Args[i]})
+							return
+						}
+					}
+				}
+			}
+			out = append(out, a)
+		case *ssa.Call:
+			if sub := subAt(g, a.Act, v); sub != nil {
+				for _, b := range sub.Fn.Blocks {
+					if r, ok := b.Instrs[len(b.Instrs)-1].(*ssa.Return); ok && len(r.Results) > 0 {
+						walk(AV{sub, r.Results[0]})
+					}
+				}
+				return
+			}
+			out = append(out, a)
+		default:
+			out = append(out, a)
+		}
+	}
+	walk(start)
+	return out
+}
+
+// fullUnconditionalLoopAt is fullUnconditionalLoop for an operation given by
+// its block in the evaluated function and its reach condition (an effect of an
+// inlined helper is placed at the block of the outermost call site).
+func fullUnconditionalLoopAt(u *U, s *Summary, loops []*Loop, blk *ssa.BasicBlock, cond Ref) (ok bool, coll ssa.Value, why string) {
+	if blk == nil {
+		return false, nil, "not inside a loop"
+	}
+	l := innermostLoop(loops, blk)
+	if l == nil {
+		return false, nil, "not inside a loop"
+	}
+	ro := rangedOver(l)
+	if ro == nil || !ro.Full {
+		return false, nil, "the loop is not a complete range over a collection"
+	}
+	if !onlyExhaustionExit(l) {
+		return false, ro.Coll, "the loop has an early exit"
+	}
+	if cond != u.bdd.And(s.RC[l.Header], contCond(u, s, l)) {
+		return false, ro.Coll, "the operation is conditional inside the loop: " + clip(u.ShowBool(cond), 160)
+	}
+	return true, ro.Coll, ""
+}
